@@ -54,7 +54,7 @@ def miri_support(seed, exes):
     rng = core.Rng(seed ^ 0xC17)
     lines = [l.strip() for l in open(os.path.join(core.ROOT, "corpus", "C17.txt")) if l.strip() and l.startswith("hist")]
     for i in range(MIRI_GENERATED):
-        lines.append("hist " + " ; ".join(gen_boundary(rng, i % 34)))
+        lines.append("hist " + " ; ".join(gen_boundary(rng, i % 35)))
     lines += ["scr 19 19", "scr 32 19", "scr 1a 3"]
     numbered = list(enumerate(lines))
     d = core.harness_dir("default")
@@ -351,6 +351,10 @@ def sim(v, t):
         x = v[a]
         if op[0] == "s" and x < 0:
             return
+        if op == "shl" and n >= HUGE_BITS and x > 0:
+            if form != "r":
+                v[a] = 0
+            return
         if (op[0] == "s" and form != "r") or (op[0] == "i" and form == "v"):
             v[a] = 0
         v[d] = x << n if op.endswith("shl") else x >> n
@@ -358,6 +362,9 @@ def sim(v, t):
         d, n = s(1), s(2)
         x = v[d]
         if x < 0:
+            return
+        if op == "setbit" and n >= HUGE_BITS:
+            v[d] = 0
             return
         v[d] = {"setbit": x | (1 << n), "clrbit": x & ~(1 << n), "chb": x & ((1 << n) - 1), "npow2": next_pow2(x)}[op]
     elif op == "split":
@@ -446,6 +453,7 @@ def sim(v, t):
         v[d] = v[d] + p if op == "addp" else (v[d] - p if op == "subp" else v[d] * p)
 
 
+HUGE_BITS = 1 << 44   # bit counts from here on ask for more than 2^40 bytes: the allocator refuses
 DIGITS = "0123456789abcdefghijklmnopqrstuvwxyz"
 
 
@@ -542,7 +550,46 @@ def gen_boundary(rng, k=None):
     fw = lambda slot, x: "fw %x %s 0" % (slot, hx(x))
     dw = lambda slot, x: "dw %x %s 0" % (slot, hx(x))
     if k is None:
-        k = rng.below(34)
+        k = rng.below(36)
+    if k == 34:
+        # ALL-ZERO raw results on the heap path (Buffer::pop_zeros scans down to the first word of the block): a - a, a ^ a, a + (-a),
+        # a % a, from_words / from_le_bytes of zeros only, x & !x (negative operand), a shift that leaves zero words only; capacities of
+        # every residue mod 4 (the guard allocator's front zone alternates)
+        nn = rng.choice([3, 3, 4, 5, 6, 7, 8, 9, 16, 17, 33])
+        x = top_set(rng, nn)
+        r = rng.below(9)
+        if r == 0:
+            return ["fw %x 0 %x" % (d, rng.choice([3, 4, 5, 6, 7, 9, 17]))]
+        if r == 1:
+            return ["%s %x 0 %x" % (rng.choice(["fle", "fbe"]), d, rng.choice([17, 18, 24, 25, 32, 33, 40, 100]))]
+        if r == 2:
+            return [fw(d, x), fw(e, x), "%s %s %x %x %x" % (rng.choice(["usub", "isub", "uxor", "ixor", "urem", "irem"]), form, t, d, e)]
+        if r == 3:
+            return [fw(d, x), "%s %s %x %x %x" % (rng.choice(["usub", "isub", "uxor", "ixor", "urem"]), form, t, d, d)]
+        if r == 4:
+            return [fw(d, x), fw(e, -x), "iadd %s %x %x %x" % (form, t, d, e)]
+        if r == 5:
+            return [fw(d, x), fw(e, -x - 1), "iand %s %x %x %x" % (form, t, d, e)]
+        if r == 6:
+            low = rng.bits(60) | 1
+            return [fw(d, low << (64 * (nn - 1))), "%s %s %x %x %x" % (rng.choice(["shr", "ishr"]), rng.choice(["v", "a", "r"]), t, d, 64 * (nn - 1) + 61)]
+        if r == 7:
+            return [fw(d, x), "chb %x 0" % d]
+        return [fw(d, x), fw(e, x), "udivrem %x %x %x %x" % (t, [i for i in range(4) if i != t][rng.below(3)], d, e)]
+    if k == 35:
+        # a growth that FAILS (the allocator returns null above 2^40 bytes): set_bit far away on a heap value (realloc of its own
+        # buffer; the value must be released exactly once by the unwinding), on an inline value, shl by a huge count; then the slot is reused / dropped
+        nn = rng.choice([0, 1, 2, 3, 3, 4, 5, 8, 17])
+        x = top_set(rng, nn) if nn else 0
+        far = rng.choice([1 << 61, (1 << 61) + 63, 1 << 50, (1 << 44) + 5, (1 << 60) - 1])
+        st = [fw(d, x) if nn > 2 else dw(d, x)]
+        if nn > 2 and rng.chance(1, 2):
+            st.append("setbit %x %x" % (d, 64 * default_cap(nn) - 1))
+        if rng.chance(3, 4) or x == 0:
+            st.append("setbit %x %x" % (d, far))
+        else:
+            st.append("shl %s %x %x %x" % (rng.choice(["v", "a", "r"]), t, d, far))
+        return st + [rng.choice(["dr %x" % d, "cl %x %x" % (d, e), "fw %x %s 0" % (d, hx(top_set(rng, 4)))])]
     if k == 27:
         # sqrt / sqrt_rem of a long value: 3 and 4 words (the four-word base case of the kernel), odd / even lengths, a top word with
         # an even / odd number of leading zeros (shift = 64 * (len & 1) + (lz & !1): 0, < 64, >= 64), perfect squares, s^2 - 1, s^2 + 2s
